@@ -259,6 +259,10 @@ class Folder:
             if f is not None:
                 return FuncRef(f)
         if isinstance(base, ExtRef):
+            if base.name == 'errno' and e.attr.isupper():
+                import errno as _errno          # a table of integer constants of the platform, nothing else
+                if isinstance(getattr(_errno, e.attr, None), int):
+                    return getattr(_errno, e.attr)
             return ExtRef(f'{base.name}.{e.attr}')
         raise Unfoldable(key)
 
